@@ -224,3 +224,18 @@ Proof.
     replace (length b - 16)%nat with (64 + 40 * k + 24)%nat by lia.
     split; assumption.
 Qed.
+
+(* Re-encoding heals: whatever the words IndexFromReader does not look at held in the file (the index
+   element's size field, the tail's index offset and table size), what WriteTo writes for the decoded
+   index has the canonical layout. *)
+Theorem reencode_canonical d b i rest :
+  wf_bytes b -> decode_index_rest d b = Ok (i, rest) ->
+  parse_layout (encode_index i) =
+    Some (mkLayout (ix_flags i) (ix_min i) (ix_avg i) (ix_max i) (table_items 0 (ix_chunks i))
+                   48 (u64 (N.of_nat (length (encode_index i) - 48)))) /\
+  word_at (encode_index i) 0 = 48.
+Proof.
+  intros Hwf E. pose proof (index_accepted_wf d b i rest Hwf E) as Hwi.
+  destruct (index_layout i Hwi) as [Hl _]. split; [exact Hl|].
+  destruct (parse_layout_inv _ _ Hl) as [_ [Hw _]]. exact Hw.
+Qed.
